@@ -223,6 +223,8 @@ func (e *ex) Do(op string) core.Result {
 		return twinMarks(t)
 	case "multi":
 		return multi(t)
+	case "twinf":
+		return twinFault(t)
 	}
 	return core.Result{Impl: "bad-op"}
 }
